@@ -1,6 +1,8 @@
 """C11 — Handover: the successor listens before the predecessor stops."""
+import re
+
 import kv
-from kv import Case, xn, xl, xlist
+from kv import Case, xn, xl, xlist, xb
 
 ID = "C11"
 MODULE = "C11"
@@ -57,11 +59,18 @@ def parse_out(i):
         x = py(kv.xparse(i))
     except Exception:
         return None
-    if not isinstance(x, list) or len(x) != 9 or not isinstance(x[1], list):
+    if not isinstance(x, list) or len(x) != 10 or not isinstance(x[1], list):
         return None
     ev = [(e[0], e[1], bytes(e[2]).decode(), e[3] - OFF, e[4]) for e in x[2]]
-    return {"stalled": x[0], "ports": x[1], "events": ev, "exchanges": x[3], "who": x[4], "timings": x[5],
-            "executed": x[6], "waited": x[7], "refuses_after": x[8]}
+    return {"stalled": x[0], "ports": x[1], "events": ev, "exchanges": x[3], "probes": x[4], "timings": x[5],
+            "executed": x[6], "waited": x[7], "refuses_after": x[8], "waiters": x[9]}
+
+
+# exchange record: kind local port_ix t_start t_end result conn seq who+1 v6
+X_KIND, X_LOCAL, X_PORT, X_T0, X_T1, X_RES, X_CONN, X_SEQ, X_WHO, X_V6 = range(10)
+# probe record (run-length encoded): start and end of the first probe, end of the last, count, outcome, id, inode
+P_S0, P_E0, P_E1, P_CNT, P_OUT, P_ID, P_INO = range(7)
+KINDS = {0: "back-to-back", 1: "slow handler", 2: "busy keep-alive", 3: "idle keep-alive"}
 
 
 def hsd(i, kind, a):
@@ -70,16 +79,23 @@ def hsd(i, kind, a):
 
 class Mapper:
     """Turns the serialised hook log of the real servers into labels of Model/Handover.v, each with the program counter
-    the hook point reported.  Trusted glue (it only re-labels): a wrong mapping makes the model reject the log."""
+    the hook point reported.  Trusted glue (it only re-labels): a wrong mapping makes the model reject the log.
+    Listener j of an instance = the j-th socket its execute() creates (port by port; with both address families the IPv4
+    socket of a port, then its IPv6 socket).  An accept task is recognised by the port its first `al.top` reports; of two
+    tasks with the same port (the two families) the first seen is given the lower index: the two are in the same state
+    when they start, so either assignment is a trace of the model."""
 
-    def __init__(self, ports):
+    def __init__(self, ports, per_port):
         self.ports = ports
+        self.per_port = per_port
+        self.nl = len(ports) * per_port
         self.out = []       # (label xval, obs)
         self.src = []       # index of the raw event behind each entry
         self.main_tid = {}
         self.mobs = {}      # instance -> program counter of execute() after its last step
         self.mpc = {}       # instance -> number of spawn steps of execute() done (today's code: not observable)
         self.lst = {}       # (inst, tid) -> listener index
+        self.taken = set()  # (inst, listener index) that has its accept task
         self.lpc = {}       # (inst, j) -> mirror pc
         self.slot = {}
         self.woken = {}
@@ -93,6 +109,8 @@ class Mapper:
         self.started = set()
         self.up0 = False
         self.accepted = []  # (peer port, listener index, time of the accept hook, instance)
+        self.nbound = {}    # instance -> sockets created so far by its execute()
+        self.unknown = []
 
     def emit(self, n, label, obs):
         self.out.append((label, obs))
@@ -106,8 +124,19 @@ class Mapper:
             self.mpc[i] = self.mpc.get(i, 0) + 1
             self.emit(n, xl(xn(1), xn(i)), self.mpc[i])
 
+    def listener_of(self, i, tid, port):
+        if (i, tid) in self.lst:
+            return self.lst[(i, tid)]
+        base = self.ports.index(port) * self.per_port
+        for j in range(base, base + self.per_port):
+            if (i, j) not in self.taken:
+                self.taken.add((i, j))
+                self.lst[(i, tid)] = j
+                return j
+        return None
+
     def run(self, events):
-        nports = len(self.ports)
+        nl = self.nl
         for inst, tid, name, val, _t in events:
             if name == "ctl.send" and inst not in self.main_tid:
                 self.main_tid[inst] = tid
@@ -136,6 +165,8 @@ class Mapper:
                     self.emit(n, hsd(val, K_STEP, 0), 4)
                 self.emit(n, hsd(val, W_STEP, 0), 1)
                 continue
+            if name in ("h.wnew", "h.wres"):
+                continue
             if name in ("h.executed", "ex.bind", "sh.enter", "co.start", "ct.start"):
                 if name == "co.start":
                     # the task of the oldest not yet started connection with this peer port (the same client port may be
@@ -146,13 +177,16 @@ class Mapper:
                             del self.pending[m]
                             break
                 continue
+            if name in ("hx.listen", "hx.req", "hx.resp", "hx.cont"):
+                continue
             if i == 99:
                 continue
             # ---- execute() of a successor (instance 0 is the model's initial instance: already up) ----
             if name == "ex.bound":
                 if i == 0:
                     continue
-                j = self.ports.index(val)
+                j = self.nbound.get(i, 0)
+                self.nbound[i] = j + 1
                 if tid == self.main_tid.get(i):
                     self.mpc[i] = j + 1
                     self.emit(n, xl(xn(1), xn(i)), j + 1)
@@ -163,7 +197,7 @@ class Mapper:
             if name == "ctl.send":
                 if i == 0:
                     continue
-                self.ensure_spawned(n, i, nports)
+                self.ensure_spawned(n, i, nl)
                 self.mpc[i] = 1000
                 self.emit(n, xl(xn(1), xn(i)), 100 if got.get(i) != 0 else 101)
                 continue
@@ -205,8 +239,10 @@ class Mapper:
                 continue
             # ---- accept loops ----
             if name == "al.top":
-                j = self.ports.index(val)
-                self.lst[(i, tid)] = j
+                j = self.listener_of(i, tid, val)
+                if j is None:
+                    self.emit(n, xl(xn(9), xn(i)), 0)
+                    continue
                 k = (i, j)
                 if self.lpc.get(k) == LCOUNTED:
                     self.emit(n, hsd(i, L_STEP, j), LTOP)
@@ -263,6 +299,7 @@ class Mapper:
                 self.emit(n, hsd(i, C_STEP, c), new)
                 continue
             # anything else: a hook point the mapper does not know is a label the model does not have
+            self.unknown.append((name, i))
             self.emit(n, xl(xn(9), xn(i)), 0)
         return self.out
 
@@ -270,11 +307,11 @@ class Mapper:
 _DRV = None
 
 
-def model_check(nports, entries):
+def model_check(nl, entries):
     global _DRV
     if _DRV is None:
         _DRV = kv.build_model_driver()
-    x = xl(xn(1), xn(nports), xlist([xl(lb, xn(o)) for lb, o in entries]))
+    x = xl(xn(1), xn(nl), xlist([xl(lb, xn(o)) for lb, o in entries]))
     out = kv._run_sharded(_DRV, ["t handover.check " + kv.xtext(x)], shards=1)
     try:
         r = py(kv.xparse(out["t"]))
@@ -284,59 +321,115 @@ def model_check(nports, entries):
 
 
 def analyse(c, i):
-    """everything the checks need from one run -> dict (cached on the case)"""
-    if "an" in c.meta:
+    """everything the checks need from one run -> dict (cached on the case, per output)"""
+    key = hash(i)
+    if c.meta.get("an_key") == key:
         return c.meta["an"]
+    c.meta["an_key"] = key
     r = parse_out(i)
     if r is None:
         c.meta["an"] = None
         return None
-    nports = len(r["ports"])
+    per_port = 2 if c.meta.get("dual") else 1
+    nl = len(r["ports"]) * per_port
     ev = r["events"]
-    an = {"r": r}
-    # -- independent of the model: which instance has which port bound, from the bind / close hook points --
-    bound = {p: set() for p in r["ports"]}
+    an = {"r": r, "nl": nl}
+    # -- independent of the model: which instance has which port bound and listening, from the bind / close hook points --
+    bound = {p: {} for p in r["ports"]}
     seen_first = False
     gap = None
     order = None
+    told = None
     everb = {}
+    t_set, t_told, t_fin, t_hstart = {}, {}, {}, {}
+    reqs = {}          # peer port -> [(time, instance)] of requests read by an instance
+    newest = 0
     for n, (inst, tid, name, val, t) in enumerate(ev):
-        if name == "ex.bound":
-            bound[val].add(inst)
-            everb.setdefault(inst, set()).add(val)
+        if name == "h.start":
+            newest = val
+            t_hstart[val] = t
+        elif name == "ex.bound":
+            bound[val][inst] = bound[val].get(inst, 0) + 1
+            everb[inst] = everb.get(inst, 0) + 1
         elif name == "al.shut":
-            bound[val].discard(inst)
-            if order is None and len(everb.get(inst + 1, ())) < nports and any(e[2] == "h.start" and e[3] == inst + 1 for e in ev[:n]):
-                order = "instance %d closed port %d at %d us before instance %d had bound every port" % (inst, val, t, inst + 1)
-        if not seen_first and all(bound[p] for p in r["ports"]):
+            bound[val][inst] = bound[val].get(inst, 0) - 1
+            if order is None and everb.get(inst + 1, 0) < nl and inst < newest:
+                order = ("instance %d closed a listener of port %d at %d us before instance %d had bound and put into listening state "
+                         "every socket (%d of %d)" % (inst, val, t, inst + 1, everb.get(inst + 1, 0), nl))
+        elif name == "ctl.recv":
+            t_told.setdefault(inst, t)
+            if told is None and everb.get(inst + 1, 0) < nl:
+                told = ("instance %d was told to shut down at %d us before its successor had bound and put into listening state every "
+                        "socket (%d of %d)" % (inst, t, everb.get(inst + 1, 0), nl))
+        elif name == "sh.set":
+            t_set.setdefault(inst, t)
+        elif name == "ct.exit":
+            t_fin.setdefault(inst, t)
+        elif name == "hx.req":
+            reqs.setdefault(val, []).append((t, inst))
+        if not seen_first and all(any(v > 0 for v in bound[p].values()) for p in r["ports"]):
             seen_first = True
         if seen_first and gap is None:
             for p in r["ports"]:
-                if not bound[p]:
-                    gap = "port %d bound by no instance after event %d (%s of instance %d at %d us)" % (p, n, name, inst, t)
-    an["gap"] = gap
-    an["order"] = order
+                if not any(v > 0 for v in bound[p].values()):
+                    gap = "port %d: no instance has a listening socket after event %d (%s of instance %d at %d us)" % (p, n, name, inst, t)
+    an.update(gap=gap, order=order, told=told, t_set=t_set, t_told=t_told, t_fin=t_fin, t_hstart=t_hstart)
     # -- the clients' ledger --
-    m = Mapper(r["ports"])
+    m = Mapper(r["ports"], per_port)
     entries = m.run(ev)
     an["entries"] = entries
     an["src"] = m.src
+    an["unknown"] = m.unknown
     acc = {}
-    for peer, j, t, _inst in m.accepted:
-        acc.setdefault((peer, j), []).append(t)
+    for peer, j, t, inst in m.accepted:
+        acc.setdefault((peer, j // per_port), []).append((t, inst))
 
-    def accepted(e):
+    def accepted_by(e):
         # local ports are re-used (a reset connection leaves no TIME_WAIT): match the accept hook by time as well
-        return any(e[3] <= t <= e[4] for t in acc.get((e[1], e[2]), ()))
+        for t, inst in acc.get((e[X_LOCAL], e[X_PORT]), ()):
+            if e[X_T0] <= t <= e[X_T1]:
+                return inst
+        return None
 
-    refused = [e for e in r["exchanges"] if e[5] == 1]
-    bad_acc = [e for e in r["exchanges"] if e[5] != 0 and e[5] != 1 and accepted(e)]
-    lost = [e for e in r["exchanges"] if e[5] in (4, 5)]
-    kq = [e for e in r["exchanges"] if e[5] in (2, 3, 6) and not accepted(e)]
-    an.update(refused=refused, bad_acc=bad_acc, lost=lost, kernel_reset=len(kq), total=len(r["exchanges"]),
-              complete=sum(1 for e in r["exchanges"] if e[5] == 0),
-              slow_complete=sum(1 for e in r["exchanges"] if e[5] == 0 and e[0] == 1))
-    an["check"] = model_check(nports, entries)
+    def read_by(e):
+        for t, inst in reqs.get(e[X_LOCAL], ()):
+            if e[X_T0] <= t <= e[X_T1]:
+                return inst
+        return None
+
+    exs = r["exchanges"]
+    reqs_ex = [e for e in exs if not (e[X_KIND] == 3 and e[X_SEQ] == 1)]
+    refused = [e for e in reqs_ex if e[X_RES] == 1]
+    # a request on a kept-alive connection that the server closed after the previous answer: the client sees the end of the
+    # connection instead of an answer and sends the request again on a new connection (as any HTTP client does)
+    ka_closed = [e for e in reqs_ex if e[X_KIND] == 2 and e[X_SEQ] >= 1 and e[X_RES] == 2 and read_by(e) is None]
+    ka_ids = {id(e) for e in ka_closed}
+    bad_acc = [e for e in reqs_ex if e[X_RES] not in (0, 1) and id(e) not in ka_ids and accepted_by(e) is not None]
+    bad_read = [e for e in reqs_ex if e[X_RES] != 0 and read_by(e) is not None]
+    lost = [e for e in reqs_ex if e[X_RES] in (4, 5)]
+    kq = [e for e in reqs_ex if e[X_RES] in (2, 3, 6) and id(e) not in ka_ids and accepted_by(e) is None]
+    wrong_who = []
+    for e in reqs_ex:
+        if e[X_RES] == 0 and e[X_SEQ] == 0:
+            a = accepted_by(e)
+            if a is not None and e[X_WHO] != a + 1:
+                wrong_who.append((e, a))
+    # keep-alive: once an instance has set its shutdown flag it answers at most one more request per connection
+    per_conn = {}
+    for e in exs:
+        if e[X_KIND] == 2 and e[X_RES] == 0 and e[X_WHO] > 0:
+            w = e[X_WHO] - 1
+            if w in t_set and e[X_T0] > t_set[w]:
+                per_conn.setdefault((e[X_CONN], w), []).append(e)
+    ka_over = sorted(((k, v) for k, v in per_conn.items() if len(v) > 1), key=lambda kv_: -len(kv_[1]))
+    idle = [e for e in exs if e[X_KIND] == 3 and e[X_SEQ] == 1]
+    an.update(refused=refused, bad_acc=bad_acc, bad_read=bad_read, lost=lost, kernel_reset=len(kq), total=len(reqs_ex),
+              ka_closed=len(ka_closed), wrong_who=wrong_who, ka_over=ka_over, idle=idle,
+              complete=sum(1 for e in reqs_ex if e[X_RES] == 0),
+              slow_complete=sum(1 for e in reqs_ex if e[X_RES] == 0 and e[X_KIND] == 1),
+              ka_complete=sum(1 for e in reqs_ex if e[X_RES] == 0 and e[X_KIND] == 2),
+              ka_spanning=sum(1 for (cid, w), v in per_conn.items() if v), v6_complete=sum(1 for e in reqs_ex if e[X_RES] == 0 and e[X_V6]))
+    an["check"] = model_check(nl, entries)
     c.meta["an"] = an
     return an
 
@@ -345,9 +438,10 @@ def summary(c, an):
     """the run in the shape of the model's prediction"""
     r = an["r"]
     k = c.meta["k"]
-    ok = 1 if (an["gap"] is None and an["order"] is None) else 0
+    ok = 1 if (an["gap"] is None and an["order"] is None and an["told"] is None) else 0
     waits = r["waited"][:k] if len(r["waited"]) >= k else r["waited"]
-    who = (r["who"][-1][1] + 1) if r["who"] else 0
+    ids = [p[P_ID] for p in r["probes"] if p[P_OUT] == 0]
+    who = (ids[-1] + 1) if ids else 0
     return "(L (N %d) (L%s) (N %d))" % (ok, "".join(" (N %d)" % w for w in waits), who)
 
 
@@ -362,123 +456,248 @@ def compare(c, i, m):
         ms = "(L (N %d) (L%s) (N %d))" % (mm[0], "".join(" (N %d)" % w for w in mm[1]), mm[2])
     except Exception:
         return False
-    if an["r"]["stalled"] != 0:
-        return False
     return summary(c, an) == ms and mm[3] == 1 and all(mm[4])
 
 
-def extra_oracle(c, i):
+def complaints(c, i):
+    """[(timing, text)]: timing = the complaint is that something did not happen within a time limit (it is confirmed by a second
+    run before it becomes a verdict, see is_trouble)"""
     if c.meta.get("kind") == "malformed":
-        return None
-    if i.startswith("(L (N 94)"):
-        return ("the first instance did not come up: execute() did not return, or nobody answered 'whoami' on its control socket "
-                "within 20 s")
+        return []
     an = analyse(c, i)
     if an is None:
-        return None
+        return []
     r = an["r"]
     k = c.meta["k"]
     why = []
+    ports = r["ports"]
+
+    def where(e):
+        return "%s request, client port %d -> port %d%s, sent at %d us" % (KINDS[e[X_KIND]], e[X_LOCAL], ports[e[X_PORT]],
+                                                                           " (IPv6)" if e[X_V6] else "", e[X_T0])
     # (a) oracle independent of the model
     if an["refused"]:
         e = an["refused"][0]
-        why.append("%d connect(s) refused during the handover, the first at %d us on port %d: no instance was listening"
-                   % (len(an["refused"]), e[3], r["ports"][e[2]]))
+        why.append((False, "%d connect(s) refused during the handover, the first at %d us on port %d%s: no instance was listening"
+                    % (len(an["refused"]), e[X_T0], ports[e[X_PORT]], " (IPv6)" if e[X_V6] else "")))
     if an["bad_acc"]:
         e = an["bad_acc"][0]
-        why.append("%d request(s) on connections that an instance had accepted got no complete answer (result %d, client port %d, "
-                   "%s, sent at %d us)" % (len(an["bad_acc"]), e[5], e[1], "slow handler" if e[0] else "fast", e[3]))
+        why.append((e[X_RES] == 4, "%d request(s) on connections that an instance had accepted got no complete answer (result %d; %s)"
+                    % (len(an["bad_acc"]), e[X_RES], where(e))))
+    if an["bad_read"]:
+        e = an["bad_read"][0]
+        why.append((e[X_RES] == 4, "%d request(s) that an instance had read got no complete answer (result %d; %s)"
+                    % (len(an["bad_read"]), e[X_RES], where(e))))
     if an["lost"]:
         e = an["lost"][0]
-        why.append("%d request(s) neither answered nor reset within the time limit, or connect failed with an unexpected error "
-                   "(result %d, client port / errno %d)" % (len(an["lost"]), e[5], e[1]))
-    if an["gap"]:
-        why.append("hook log: " + an["gap"])
-    if an["order"]:
-        why.append("hook log: " + an["order"])
+        why.append((True, "%d request(s) neither answered nor reset within the time limit, or connect failed with an unexpected error "
+                    "(result %d, client port / errno %d)" % (len(an["lost"]), e[X_RES], e[X_LOCAL])))
+    if an["wrong_who"]:
+        e, a = an["wrong_who"][0]
+        why.append((False, "%d answer(s) name another instance than the one that accepted the connection (accepted by %d, answer says %d; %s)"
+                    % (len(an["wrong_who"]), a, e[X_WHO] - 1, where(e))))
+    if an["ka_over"]:
+        (cid, w), v = an["ka_over"][0]
+        why.append((False, "keep-alive: instance %d answered %d requests on one connection (client port %d) that were sent after it had set "
+                    "its shutdown flag (at %d us; requests sent at %s us): a connection accepted before the handover must be closed "
+                    "after at most one more request" % (w, len(v), v[0][X_LOCAL], an["t_set"][w], ", ".join(str(e[X_T0]) for e in v[:6]))))
+    for e in an["idle"]:
+        if e[X_RES] == 12:
+            why.append((True, "an idle kept-alive connection (client port %d) was still open %d ms after its last answer"
+                        % (e[X_LOCAL], (e[X_T1] - e[X_T0]) // 1000)))
+        elif e[X_RES] != 10:
+            why.append((False, "an idle kept-alive connection (client port %d) was not closed cleanly (result %d)" % (e[X_LOCAL], e[X_RES])))
+    for what in ("gap", "order", "told"):
+        if an[what]:
+            why.append((False, "hook log: " + an[what]))
     if len(r["executed"]) != k + 1 or not all(r["executed"]):
-        why.append("execute() of an instance did not return: %s" % r["executed"])
+        why.append((True, "execute() of an instance did not return: %s" % r["executed"]))
     for h, t in enumerate(r["timings"]):
+        if len(t) < 6:
+            continue
         if not t[3]:
-            why.append("wait() of instance %d had not resolved %d ms after its successor was started" % (h, (t[4] - t[0]) // 1000))
+            why.append((True, "wait() of instance %d (called right after execute()) had not resolved %d ms after its successor was started"
+                        % (h, (t[4] - t[0]) // 1000)))
         if not t[5]:
-            why.append("instance %d did not answer on the control socket within 10 s after its start" % (h + 1))
-    ids = [w[1] for w in r["who"]]
+            why.append((True, "instance %d did not answer on the control socket within 15 s after its start" % (h + 1)))
+    # every wait() resolves: the one called when the instance was told to shut down and the one called after its shutdown had completed
+    for h in range(min(k, len(r["waited"]))):
+        if not r["waited"][h]:
+            continue
+        for kind, txt in ((1, "when the instance was told to shut down"), (2, "after its shutdown had completed")):
+            ws = [w for w in r["waiters"] if w[0] == h and w[1] == kind]
+            if not ws:
+                why.append((True, "no wait() could be called on instance %d %s (the moment was not seen in the hook log)" % (h, txt)))
+            elif ws[0][3] == 0:
+                why.append((True, "wait() of instance %d called %s (at %d us) never resolved, although the wait() called right after "
+                            "execute() did" % (h, txt, ws[0][2])))
+    # the control socket: answered by instances in increasing order, finally by the newest, and by an instance without a break from
+    # its first answer until it is told to shut down
+    probes = r["probes"]
+    ids = [p[P_ID] for p in probes if p[P_OUT] == 0]
     if ids != sorted(ids):
-        why.append("control socket answered by an older instance after a newer one had answered: %s" % ids)
+        why.append((False, "control socket answered by an older instance after a newer one had answered: %s" % ids))
     if ids and ids[-1] != k:
-        why.append("control socket finally answered by instance %d, not by the newest (%d)" % (ids[-1], k))
+        why.append((False, "control socket finally answered by instance %d, not by the newest (%d)" % (ids[-1], k)))
+    first = {}
+    for p in probes:
+        if p[P_OUT] == 0 and p[P_ID] not in first:
+            first[p[P_ID]] = p[P_E0]
+    for j, t_first in sorted(first.items()):
+        t_end = an["t_told"].get(j, 1 << 62)
+        for p in probes:
+            # a probe that began after the instance's first answer and ended before the instance was told to shut down
+            if t_first < p[P_S0] and p[P_E0] < t_end and not (p[P_OUT] == 0 and p[P_ID] == j):
+                what = {0: "instance %d answered" % p[P_ID], 1: "nobody listened (NotFound)", 2: "the exchange failed (Error)",
+                        3: "no answer within 5 s", 4: "a garbled answer came"}[p[P_OUT]]
+                why.append((p[P_OUT] == 3, "control socket: instance %d answered first at %d us and was not told to shut down before %s, but "
+                            "at %d us (%d probe(s) until %d us) %s"
+                            % (j, t_first, ("%d us" % t_end) if t_end < (1 << 62) else "the end", p[P_S0], p[P_CNT], p[P_E1], what)))
+                break
     if not r["refuses_after"]:
-        why.append("a port still accepts after every instance was shut down")
+        why.append((False, "a port still accepts after every instance was shut down"))
     # (b) trace inclusion: the model accepts the log, and every port is served in every state along it
     chk = an["check"]
     if chk is None:
-        why.append("the model could not check the log")
+        why.append((False, "the model could not check the log"))
     else:
         acc, unserved, bad = chk
         if bad:
             n = bad[0][0]
             src = r["events"][an["src"][n]] if n < len(an["src"]) else None
-            why.append("the hook log is not a trace of Model/Handover.v: entry %d (%s; raw event %s) -> model says %d"
-                       % (n, kv.pretty(an["entries"][n][0], 80) + " obs %d" % an["entries"][n][1], src, bad[0][1]))
+            why.append((False, "the hook log is not a trace of Model/Handover.v: entry %d (%s; raw event %s) -> model says %d"
+                        % (n, kv.pretty(an["entries"][n][0], 80) + " obs %d" % an["entries"][n][1], src, bad[0][1])))
         elif acc != len(an["entries"]):
-            why.append("the model stopped after %d of %d log entries" % (acc, len(an["entries"])))
+            why.append((False, "the model stopped after %d of %d log entries" % (acc, len(an["entries"]))))
         if unserved:
-            why.append("running the log through the model: some port is served by no instance after entry %d" % (unserved - 1))
-    return "; ".join(why) if why else None
+            why.append((False, "running the log through the model: some listener's port is served by no instance after entry %d" % (unserved - 1)))
+    return why
+
+
+def extra_oracle(c, i):
+    why = complaints(c, i)
+    return "; ".join(t for _, t in why) if why else None
+
+
+def is_trouble(c, i):
+    """Harness trouble (not an outcome of the code): the case is run again, up to two more times; what still cannot be executed is
+    counted and named as not_executed (too many of them fail the check as a harness error).
+    * (L (N 93) ...) / (L (N 96) (N ..)): the harness could not run the case (ports, build without hooks ...);
+    * (L (N 94) ...): the first instance did not come up within 30 s;
+    * a thread waited 20 s for the baton (`stalled`): the log is not serialised;
+    * all complaints are of the kind "did not happen within the time limit": confirmed by a second run before it is a verdict."""
+    if c.meta.get("kind") == "malformed":
+        return False
+    if re.match(r"\(L \(N 93\)|\(L \(N 96\) \((N|B) |\(L \(N 94\)", i):
+        return True
+    if c.meta.get("kind") == "replay":
+        return False
+    an = analyse(c, i)
+    if an is None:
+        return False
+    if an["r"]["stalled"] != 0:
+        return True
+    why = complaints(c, i)
+    if why and all(t for t, _ in why):
+        seen = c.meta.setdefault("timing_seen", [])
+        if hash(i) not in seen:
+            seen.append(hash(i))
+        return len(seen) < 2
+    return False
+
+
+MAX_NOT_EXECUTED = 2
 
 
 def classify(c, i):
     return None
 
 
-def case(n, k, flavour, seed, jitter, d_bind, d_send, d_close, slow_ms, nslow, gap, kind):
-    x = xl(*[xn(v) for v in (n, k, flavour, seed, jitter, d_bind, d_send, d_close, slow_ms, nslow, gap, 0)])
-    return Case("handover.run", x, None, {"kind": kind, "k": k, "n": n, "flavour": flavour}, "dev")
+def D(name, ms, reps=1, frm=0):
+    return (name, ms, reps, frm)
+
+
+def case(n, k, flavour, seed, jitter, delays, slow_ms, nslow, gap, kind, eager=0, ka=0, dual=0, stale=0, block=0):
+    ds = xlist([xl(xb(name), xn(ms), xn(reps), xn(frm)) for name, ms, reps, frm in delays])
+    x = xl(xn(n), xn(k), xn(flavour), xn(seed), xn(jitter), ds, xn(slow_ms), xn(nslow), xn(gap), xn(eager), xn(ka), xn(dual),
+           xn(stale), xn(block))
+    return Case("handover.run", x, None, {"kind": kind, "k": k, "n": n, "flavour": flavour, "dual": dual, "ka": ka, "eager": eager,
+                                          "delays": [d[0] for d in delays]}, "dev")
+
+
+# every hook point; the ones of the start-up program are delayed in successors only
+STARTUP_HOOKS = ["ex.bind", "hx.listen", "ex.bound", "ctl.send", "ctl.got", "ctl.started"]
+OTHER_HOOKS = ["ctl.recv", "ctl.reply", "sh.enter", "sh.set", "sh.init", "sh.swap", "sh.notify", "sh.exit", "ap.poll", "ap.flag", "ap.waker",
+               "ap.checked", "al.top", "al.got", "al.counted", "al.shut", "al.exit", "rm.enter", "rm.dec", "rm.flag", "rm.exit", "co.start",
+               "ct.start", "ct.sent", "ct.loop", "ct.exit", "hx.req", "hx.resp", "hx.cont"]
+
+
+def random_delays(rng):
+    out = []
+    for _ in range(rng.choice([0, 1, 1, 2, 3])):
+        if rng.random() < 0.45:
+            name, frm = rng.choice(STARTUP_HOOKS), 1
+        else:
+            name, frm = rng.choice(OTHER_HOOKS), 0
+        ms = rng.choice([5, 40, 120, 300])
+        reps = rng.choice([1, 2, 4]) if ms <= 120 else rng.choice([1, 2])
+        out.append(D(name, ms, reps, frm))
+    return out
 
 
 def generate(rng, tier):
     quick = tier == "quick"
     cases = []
     # the witness schedule of always_bound_today_refuted: the bind point of the successor is delayed (multi-thread runtime)
-    cases.append(case(1, 1, 1, 7, 100, 300, 0, 0, 200, 1, 60, "bind-delayed"))
-    cases.append(case(2, 1, 1, 8, 100, 150, 0, 0, 150, 2, 50, "bind-delayed"))
-    cases.append(case(1, 1, 0, 9, 100, 200, 0, 0, 150, 1, 50, "bind-delayed"))
-    cases.append(case(2, 3, 0, 10, 200, 20, 10, 30, 150, 2, 40, "chain"))
-    cases.append(case(1, 3, 1, 11, 200, 10, 20, 20, 120, 1, 40, "chain"))
-    cases.append(case(2, 2, 1, 12, 50, 0, 0, 120, 300, 2, 40, "close-delayed"))
-    cases.append(case(1, 1, 0, 13, 0, 0, 0, 0, 400, 3, 40, "slow-spanning"))
-    cases.append(case(3, 1, 1, 14, 300, 30, 100, 0, 100, 3, 40, "send-delayed"))
-    for x in [xn(3), xl(xn(1)), xl(*[xn(0)] * 12), xl(*([xn(1)] * 11 + [xl()]))]:
+    cases.append(case(1, 1, 1, 7, 100, [D("ex.bind", 300, 8, 1)], 200, 1, 60, "bind-delayed"))
+    cases.append(case(2, 1, 1, 8, 100, [D("ex.bind", 150, 8, 1)], 150, 2, 50, "bind-delayed", ka=1))
+    cases.append(case(1, 1, 0, 9, 100, [D("ex.bind", 200, 8, 1)], 150, 1, 50, "bind-delayed"))
+    # between bind() and listen()
+    cases.append(case(2, 1, 1, 15, 100, [D("hx.listen", 200, 8, 1)], 150, 1, 50, "listen-delayed", ka=1))
+    cases.append(case(1, 2, 0, 16, 100, [D("hx.listen", 120, 8, 1), D("ctl.recv", 40, 1, 0)], 100, 1, 40, "listen-delayed", dual=1))
+    cases.append(case(2, 3, 0, 10, 200, [D("ex.bind", 20, 8, 1), D("ctl.send", 10, 1, 1), D("al.shut", 30, 8, 0)], 150, 2, 40, "chain", ka=1))
+    cases.append(case(1, 3, 1, 11, 200, [D("ex.bind", 10, 8, 1), D("ctl.send", 20, 1, 1), D("al.shut", 20, 8, 0)], 120, 1, 40, "chain", ka=1))
+    cases.append(case(2, 2, 1, 12, 50, [D("al.shut", 120, 8, 0)], 300, 2, 40, "close-delayed", ka=1))
+    cases.append(case(1, 1, 0, 13, 0, [], 400, 3, 40, "slow-spanning"))
+    cases.append(case(3, 1, 1, 14, 300, [D("ex.bind", 30, 8, 1), D("ctl.send", 100, 1, 1)], 100, 3, 40, "send-delayed"))
+    # keep-alive connections across the switch, both address families, a stale socket file before the first instance
+    cases.append(case(1, 2, 1, 17, 100, [D("ctl.reply", 60, 1, 0)], 150, 1, 60, "keep-alive", ka=1, dual=1))
+    cases.append(case(2, 1, 0, 18, 100, [D("sh.notify", 80, 1, 0)], 120, 0, 60, "keep-alive", ka=1, stale=1))
+    cases.append(case(1, 1, 1, 19, 50, [], 60, 0, 40, "idle-keep-alive", ka=2))
+    for x in [xn(3), xl(xn(1)), xl(*[xn(0)] * 14), xl(*([xn(1)] * 13 + [xl()]))]:
         cases.append(Case("handover.run", x, None, {"kind": "malformed"}, "dev"))
-    nrand = 12 if quick else 300
+    nrand = 11 if quick else 300
     for _ in range(nrand):
         n = rng.choice([1, 1, 2, 2, 3])
-        k = rng.choice([1, 1, 2, 3] if quick else [1, 1, 2, 2, 3, 4])
+        k = rng.choice([1, 1, 2, 3] if quick else [1, 1, 2, 2, 3, 4, 5])
         fl = rng.choice([0, 1])
         jitter = rng.choice([0, 50, 200, 600])
-        d_bind = rng.choice([0, 0, 5, 40, 120])
-        d_send = rng.choice([0, 0, 5, 40])
-        d_close = rng.choice([0, 0, 5, 40, 100])
         slow = rng.choice([60, 150, 300])
         nslow = rng.choice([0, 1, 2, 3])
         gap = rng.choice([25, 40, 70])
-        cases.append(case(n, k, fl, rng.randrange(1, 1 << 30), jitter, d_bind, d_send, d_close, slow, nslow, gap, "random"))
+        ka = rng.choice([0, 1, 1]) if quick else rng.choice([0, 1, 1, 1, 2, 3])
+        if ka & 2:
+            k = min(k, 2)
+        dual = rng.choice([0, 0, 1])
+        stale = rng.choice([0, 0, 0, 1])
+        cases.append(case(n, k, fl, rng.randrange(1, 1 << 30), jitter, random_delays(rng), slow, nslow, gap, "random", ka=ka, dual=dual,
+                          stale=stale))
     return cases
 
 
 def signature(c, m):
     if c.meta.get("kind") == "malformed":
         return None
-    return "%s/%s/%s" % (c.meta.get("n"), c.meta.get("k"), c.meta.get("flavour")) + m[:40]
+    return "%s/%s/%s/%s/%s" % (c.meta.get("n"), c.meta.get("k"), c.meta.get("flavour"), c.meta.get("dual"), c.meta.get("ka")) + m[:40]
 
 
 def directed(rng, mismatches):
     out = []
     for fl in (1, 0):
         for d in (300, 120):
-            out.append(case(1, 1, fl, rng.randrange(1, 1 << 30), 100, d, 0, 0, 150, 1, 50, "directed-bind-delayed"))
-            out.append(case(2, 2, fl, rng.randrange(1, 1 << 30), 100, d, 0, 50, 150, 2, 50, "directed-bind-delayed"))
+            out.append(case(1, 1, fl, rng.randrange(1, 1 << 30), 100, [D("ex.bind", d, 8, 1)], 150, 1, 50, "directed-bind-delayed"))
+            out.append(case(2, 2, fl, rng.randrange(1, 1 << 30), 100, [D("hx.listen", d, 8, 1), D("al.shut", 50, 8, 0)], 150, 2, 50,
+                            "directed-listen-delayed", ka=1))
     return out
 
 
@@ -486,12 +705,15 @@ def describe(c):
     d = {"component": c.comp, "kind": c.meta.get("kind"), "input": kv.pretty(c.x, 300)}
     if "k" in c.meta:
         d["ports/handovers/runtime"] = [c.meta["n"], c.meta["k"], "multi-thread" if c.meta["flavour"] else "current-thread"]
+        d["both address families / keep-alive clients / delayed hook points"] = [c.meta["dual"], c.meta["ka"], c.meta["delays"]]
     return d
 
 
 def extra_coverage(cases, impl, model, spec):
-    tot = dict(handovers=0, exchanges=0, complete=0, slow_complete=0, kernel_queue_resets=0, refused=0, log_entries=0, runs_multi_thread=0,
-               runs_current_thread=0)
+    tot = dict(handovers=0, exchanges=0, complete=0, slow_complete=0, keep_alive_complete=0, keep_alive_connections_spanning_a_switch=0,
+               keep_alive_closed_between_requests=0, ipv6_complete=0, kernel_queue_resets=0, refused=0, log_entries=0, runs_multi_thread=0,
+               runs_current_thread=0, late_waiters_resolved=0, probes=0, idle_connections_closed_by_the_server=0)
+    delayed = {}
     for c in cases:
         an = c.meta.get("an")
         if not an:
@@ -500,12 +722,24 @@ def extra_coverage(cases, impl, model, spec):
         tot["exchanges"] += an["total"]
         tot["complete"] += an["complete"]
         tot["slow_complete"] += an["slow_complete"]
+        tot["keep_alive_complete"] += an["ka_complete"]
+        tot["keep_alive_connections_spanning_a_switch"] += an["ka_spanning"]
+        tot["keep_alive_closed_between_requests"] += an["ka_closed"]
+        tot["ipv6_complete"] += an["v6_complete"]
         tot["kernel_queue_resets"] += an["kernel_reset"]
         tot["refused"] += len(an["refused"])
         tot["log_entries"] += len(an["entries"])
+        tot["late_waiters_resolved"] += sum(1 for w in an["r"]["waiters"] if w[3])
+        tot["probes"] += sum(p[P_CNT] for p in an["r"]["probes"])
+        tot["idle_connections_closed_by_the_server"] += sum(1 for e in an["idle"] if e[X_RES] == 10)
         tot["runs_multi_thread" if c.meta["flavour"] else "runs_current_thread"] += 1
+        for d in c.meta.get("delays", ()):
+            delayed[d] = delayed.get(d, 0) + 1
+    tot["runs_with_a_delay_at_hook_point"] = dict(sorted(delayed.items()))
     tot["note"] = ("kernel_queue_resets = connections that were queued by the kernel on a listener of the predecessor, never returned by "
-                   "accept(), and reset when that listener was closed: outside the model, counted, not a verdict")
+                   "accept(), and reset when that listener was closed: outside the model, counted, not a verdict. "
+                   "keep_alive_closed_between_requests = a request written on a kept-alive connection that the server had closed after "
+                   "the previous answer (no instance read it; the client repeats it on a new connection)")
     return {"handover_runs": tot}
 
 
